@@ -1,10 +1,10 @@
-(* C15/Props.v — property theorems only (proofs: Proofs.v, ProofsHist.v, ProofsThm.v).
+(* C15/Props.v — property theorems only (proofs: Proofs.v, ProofsHist.v, ProofsThm.v, ProofsCatchup.v).
    Vocabulary (Model.v): [run nsubs st blocks] = BeginBlocker applied over the blocks (height, time) to the
    store [st]; it returns the final store and, per block, the hook invocations in delivery order.
    [entry id st] = the epoch info of identifier [id]; [log_of id evs] = all notifications of [id] over the
    history; [store_ok] = identifiers pairwise distinct; [times_ok] = heights >= 0, times non-decreasing. *)
 From Coq Require Import List String ZArith Sorting.Sorted.
-From Exo Require Import Base.Store C15.Model C15.Proofs C15.ProofsHist C15.ProofsThm.
+From Exo Require Import Base.Store C15.Model C15.Proofs C15.ProofsHist C15.ProofsThm C15.ProofsCatchup.
 Import ListNotations.
 Local Open Scope Z_scope.
 
@@ -127,6 +127,23 @@ Theorem C15_held_before_start : forall nsubs st blocks id e,
 Proof. exact held_before_start_thm. Qed.
 Print Assumptions C15_held_before_start.
 
+(* "A stalled chain catches up one epoch per block", over a whole run: if every one of the k blocks is
+   later than k whole durations after the current epoch's start (the chain was down for more than k epochs),
+   then after those k blocks the number is exactly cur + k, the current start time is cur_start + k x
+   duration, and the notifications delivered are exactly end(n), start(n+1) for n = cur .. cur+k-1, one
+   pair per block, fanned out to the subscribers in order; whatever the other identifiers do. *)
+Theorem C15_catchup : forall nsubs st blocks id e,
+  store_ok st = true -> entry id st = Some e -> validate e = true -> ei_started e = true ->
+  (forall b, In b blocks -> 0 <= fst b /\ ei_start e <= snd b /\
+                            ei_cur_start e + Z.of_nat (List.length blocks) * ei_dur e < snd b) ->
+  exists e', entry id (fst (run nsubs st blocks)) = Some e' /\
+    ei_cur e' = ei_cur e + Z.of_nat (List.length blocks) /\
+    ei_cur_start e' = ei_cur_start e + Z.of_nat (List.length blocks) * ei_dur e /\
+    log_of id (snd (run nsubs st blocks)) =
+      List.concat (catchup_events nsubs id (ei_cur e) (List.length blocks)).
+Proof. exact catchup_uniform_thm. Qed.
+Print Assumptions C15_catchup.
+
 (* ---------------- non-vacuity: the hypotheses are satisfiable and the histories are not trivial -------- *)
 Definition ex_store : store epoch_info :=
   init_genesis 0 100 [ mkEI "hour" zero_time 60 0 zero_time false 0;
@@ -172,3 +189,11 @@ Example reset_example :
 Proof. vm_compute. reflexivity. Qed.
 (* an invalid stored entry (only reachable by writing the store directly) is frozen, cf. C15_invalid_frozen *)
 Example ex_invalid : validate (mkEI "z" 0 0 3 0 true 0) = false. Proof. reflexivity. Qed.
+(* C15_catchup: "week" (duration 7, number 4, current start 71) at times >= 101 is more than 3 epochs behind *)
+Example ex_catchup : exists e, entry "week" ex_store = Some e /\ validate e = true /\ ei_started e = true /\
+  (forall b, In b [(1, 101); (2, 101); (3, 130)] -> 0 <= fst b /\ ei_start e <= snd b /\
+     ei_cur_start e + Z.of_nat 3 * ei_dur e < snd b).
+Proof.
+  eexists. split; [vm_compute; reflexivity|]. cbn. repeat split; auto;
+  destruct H as [<-|[<-|[<-|[]]]]; cbn; try reflexivity; discriminate.
+Qed.
